@@ -236,7 +236,28 @@ def gen_program(r, nulls=False, policy=None):
                 create_overlay[ks[0]] = T[ks[0]] + "-at-create"
                 contradicts = True
     owned = r.random() < 0.7
-    return {"T": T, "base": spec_base, "overlays": spec_overlays, "template": use_template, "policy": pol,
+    create_enabled = r.random() >= 0.15
+    if not create_enabled:
+        create_overlay, contradicts = None, False
+    # an overlay step that (tries to) rewrite identity fields: the forced kind/name overlay is applied
+    # last, so the materialised target is unchanged by it
+    if r.random() < 0.15:
+        kind = r.choice(["metadata-input", "metadata-input", "name", "kind", "apiVersion", "namespace"])
+        if kind == "metadata-input":
+            md = copy.deepcopy(T.get("metadata") or {})
+            md.update({"name": "intruder", "namespace": "elsewhere"})
+            inputs["metadata"] = md
+            T.setdefault("metadata", {})
+            spec_overlays.append({"overlay": {"metadata": "=inputs.metadata"}})
+        elif kind == "name":
+            spec_overlays.append({"overlay": {"metadata": {"name": "intruder"}}})
+        elif kind == "namespace":
+            spec_overlays.append({"overlay": {"metadata": {"namespace": "elsewhere"}}})
+        elif kind == "kind":
+            spec_overlays.append({"overlay": {"kind": "Gadget"}})
+        else:
+            spec_overlays.append({"overlay": {"apiVersion": "other.dev/v9"}})
+    return {"createEnabled": create_enabled, "T": T, "base": spec_base, "overlays": spec_overlays, "template": use_template, "policy": pol,
             "delay": delay, "createDelay": cdelay, "createOverlay": create_overlay, "contradicts": contradicts,
             "owned": owned, "inputs": inputs}
 
@@ -262,6 +283,8 @@ def program_spec(p) -> tuple[dict, dict | None]:
     create: dict = {"delay": p["createDelay"]}
     if p["createOverlay"]:
         create["overlay"] = copy.deepcopy(p["createOverlay"])
+    if not p.get("createEnabled", True):
+        create = {"enabled": False}
     spec["create"] = create
     return spec, tmpl
 
@@ -326,10 +349,20 @@ def owner_free(t) -> bool:
     return isinstance(md, dict) and "ownerReferences" not in md
 
 
+def synth_stored(p):
+    """the object as koreo would have created it — for functions that may not create themselves"""
+    body = g.strip(create_view(p))
+    text = json.dumps(body)
+    body = copy.deepcopy(body)
+    body["metadata"].setdefault("annotations", {})[LA] = text
+    return body
+
+
 def pass_req(p, live):
     _, fix = owner_state(p, live)
     return {"op": "pass",
-            "cfg": {"policy": policy_of(p), "ownerFix": fix, "createDelay": to_wire(p["createDelay"]),
+            "cfg": {"policy": policy_of(p), "ownerFix": fix, "createEnabled": bool(p.get("createEnabled", True)),
+                    "createDelay": to_wire(p["createDelay"]),
                     "createView": to_wire(create_view(p))},
             "t": to_wire(target_of(p)),
             "cluster": None if live is None else {"some": to_wire(to_model_object(live))}}
@@ -378,6 +411,12 @@ class ServerRules:
             md.setdefault("resourceVersion", "1")
             return new
         md["uid"] = omd["uid"]
+        for k in ("name", "namespace"):                   # identity is immutable on the server
+            if k in omd:
+                md[k] = omd[k]
+        for k in ("apiVersion", "kind"):
+            if k in old:
+                new[k] = old[k]
         gen = omd.get("generation", 1)
         if cn(_outside_metadata(old)) != cn(_outside_metadata(new)):
             gen = gen + 1
@@ -753,7 +792,7 @@ def in_c04_domain(p, t) -> bool:
 
 def configured_delay(p, before):
     if before is None:
-        return p["createDelay"]
+        return p["createDelay"] if p.get("createEnabled", True) else None      # may not create: never mutates
     if p["policy"] == "patch":
         return p["delay"]
     if p["policy"] == "default":
